@@ -211,8 +211,10 @@ class PixCoord:
         separation : `numpy.array`
             The separation in pixels.
         """
-        dx = other.x - self.x
-        dy = other.y - self.y
+        # subtract as floats: unsigned integer coordinates would wrap
+        # around for negative differences
+        dx = np.subtract(other.x, self.x, dtype=float)
+        dy = np.subtract(other.y, self.y, dtype=float)
         return np.hypot(dx, dy)
 
     @property
